@@ -67,8 +67,6 @@ def main(tier):
                             earlier = a if (a["ldn"], a["sod"]) <= (bb["ldn"], bb["sod"]) else bb
                             if ("m" in units or "Y" in units) and earlier["d"] > 28:
                                 continue
-                            if "Y" in units and "w" in units and "m" not in units and earlier["iw"] > 52:
-                                continue        # the week-calendar analogue of the day <= 28 restriction: week 53 does not exist in every year
                             if "b" in units and (a["wd"] > 5 or bb["wd"] > 5):
                                 continue
                             if with_time and abs(a["ldn"] - bb["ldn"]) > 24000 and units[0] in "SMH":
